@@ -286,6 +286,9 @@ def run(chk):
             chain.add_site_dissipation(0, l1_, gamma=g1)
             jumps.append((g1, emb(l1_, 0)))
             A_, B_ = rng.choice([SM, SZ, SX]), rng.choice([SM, SM.T, SZ])
+            if it == 1:
+                # both factors of the two-site jump operator non-normal (A A^+ != A^+ A): the anticommutator term needs A^+ A on each site
+                A_, B_ = SM + 0.3 * SZ, SM.T
             chain.add_nn_dissipation(0, A_, B_, gamma=g2)
             jumps.append((g2, np.kron(A_, B_)))
         r0s = [oqupy.operators.spin_dm(rng.choice(["x+", "y+", "z+"])) for _ in range(L2)]
